@@ -6,6 +6,7 @@ import SpoxModel.Lemmas.FrontIR
 import SpoxModel.Generated.BuildFrontIR
 import SpoxModel.Model.FrontFacts
 import SpoxModel.Generated.FrontFacts
+import SpoxModel.Lemmas.FrontSpec
 /-!
 # C03 — the model's inputs and outputs are exactly what was requested
 
@@ -494,6 +495,161 @@ example : errOf (FrontIR.run buildIR ir exP id ⟨exIns, [], false⟩ (fun _ => 
   decide
 example : errOf (FrontIR.run buildIR ir exP id ⟨exIns ++ [⟨"y0", 2⟩], exOuts, false⟩ (fun _ => none)).2 = some .type := by
   decide
+
+/-! ## Refinement to an abstract specification (round 10)
+
+`Front.specBuild` says what `build` returns on a well-formed request without mentioning the name
+store, `_temporary_renames`, set iteration, `discover`'s checks or the order of `build`'s statements.
+The clause theorems above each describe one outcome under the hypothesis that this outcome occurred;
+`build_refines_spec` determines the outcome itself. -/
+
+/-- `valid_request_builds` under `NoClash` instead of "unlisted Vars are unnamed". -/
+theorem valid_request_builds_noclash (P : List Obj) (π : List Nat → List Nat) (hπ : ∀ l, (π l).Perm l)
+    (fixed : Bool) (req : Request) (s : Store) (hwf : WellFormed P req)
+    (hnc : NoClash req s)
+    (hall : ∀ a, dependsOn P req.outputs a = true → a ∈ req.inputs.map (·.obj)) :
+    ∃ m, (build ir P π fixed req s).2 = .ok m := by
+  have hir : ir = fixedIR := goodShape_eq generated_good
+  rw [hir, build_checked P π fixed req s hwf.inputsArgs hwf.outputsVars hwf.outputsNonempty,
+    body_wf' P π hπ fixed req s hwf.objsNodup hwf.namesDisjoint hwf.programOk.1 hwf.programOk.2
+      hwf.notFormals hnc]
+  have hsub : ∀ a, a ∈ freeArgs P req.outputs → a ∈ req.inputs.map (·.obj) :=
+    fun a ha => hall a (List.contains_iff_mem.mpr ha)
+  have h3 : (freeArgs P req.outputs).any (fun a => !(argsOf P π req).contains a) = false := by
+    rw [List.any_eq_false]
+    intro a ha
+    have : a ∈ argsOf P π req := by
+      unfold argsOf
+      cases hd : req.drop with
+      | true => rw [if_pos rfl]; exact (hπ _).mem_iff.mpr ha
+      | false => simp only [Bool.false_eq_true, if_false]; exact hsub a ha
+    simp only [Bool.not_eq_true', Bool.not_eq_false]
+    exact List.contains_iff_mem.mpr this
+  have h5 : (argsOf P π req).any
+      (fun a => foreign (req.inputs.map (·.name)) (enter (kwargs req) s a)) = false := by
+    rw [List.any_eq_false]
+    intro a ha
+    have : a ∈ req.inputs.map (·.obj) := by
+      unfold argsOf at ha
+      cases hd : req.drop with
+      | true => rw [hd, if_pos rfl] at ha; exact hsub a ((hπ _).mem_iff.mp ha)
+      | false => rw [hd] at ha; simpa using ha
+    rw [foreign_listed req s a this]
+    simp
+  rw [h3, h5]
+  exact ⟨_, rfl⟩
+
+/-- The executable `Front.wfReq` (evaluated by the driver on every request of the correspondence)
+    implies the hypothesis `WellFormed` of the clause theorems. -/
+theorem wfReq_sound (P : List Obj) (req : Request) (h : wfReq P req = true) : WellFormed P req := by
+  unfold wfReq at h
+  simp only [Bool.and_eq_true, Bool.not_eq_true', List.all_eq_true] at h
+  obtain ⟨⟨⟨⟨⟨⟨⟨⟨h1, h2⟩, h3⟩, h4⟩, h5⟩, h6⟩, h7⟩, h8⟩, h9⟩ := h
+  refine ⟨h1, h2, ?_, (hasDupS_false_iff _).mp h4, (hasDup_false_iff _).mp h5, ?_, ⟨h7, ?_⟩, ?_⟩
+  · intro hn; rw [hn] at h3; cases h3
+  · intro e he hm
+    have := h6 e he
+    rw [List.contains_iff_mem.mpr hm] at this
+    cases this
+  · intro a ha hu
+    have := h8 a ha
+    rw [List.contains_iff_mem.mpr hu] at this
+    cases this
+  · intro e he hc
+    have := h9 e he
+    rw [List.contains_iff_mem.mpr hc] at this
+    cases this
+
+/-- **Refinement.** On every well-formed request, for every set order `π` and every name store that
+    satisfies `NoClash`, `build` (code after the fixes) returns exactly `specBuild`: KeyError iff some
+    output depends on an unlisted argument; otherwise the model whose inputs are the listed entries
+    (with `drop_unused_inputs`: those some output depends on) in the given order with the given names
+    and the Vars' types, and whose outputs are the entries of `outputs`, each bound to its Var.
+    No hypothesis about the outcome. -/
+theorem build_refines_spec (P : List Obj) (π : List Nat → List Nat) (hπ : ∀ l, (π l).Perm l)
+    (req : Request) (s : Store) (hwf : WellFormed P req) (hnc : NoClash req s) :
+    (build ir P π true req s).2 = specBuild P req := by
+  unfold specBuild
+  by_cases hall : (freeArgs P req.outputs).all (fun a => (req.inputs.map (·.obj)).contains a) = true
+  · rw [if_pos hall]
+    have hall' : ∀ a, dependsOn P req.outputs a = true → a ∈ req.inputs.map (·.obj) := by
+      intro a ha
+      exact List.contains_iff_mem.mp (List.all_eq_true.mp hall a (List.contains_iff_mem.mp ha))
+    obtain ⟨m, hm⟩ := valid_request_builds_noclash P π hπ true req s hwf hnc hall'
+    rw [hm]
+    obtain ⟨ho, hv⟩ := outputs_exact P π true req s m hm
+    obtain ⟨ins, outs, drop⟩ := req
+    have hi : m.inputs = ((if drop then ins.filter (fun e => (freeArgs P outs).contains e.obj)
+        else ins).map (infoOf P)) := by
+      cases drop with
+      | true => exact inputs_dropped_noclash P π hπ ins outs s m hwf.keysNodup hwf.objsNodup hnc hm
+      | false => exact inputs_exact P π true ins outs s m hm
+    have hmeq : m = ⟨m.inputs, m.outputs, m.outVars⟩ := rfl
+    rw [hmeq, hi, ho, hv]
+    rfl
+  · rw [if_neg hall]
+    have h1 : ¬ ∀ a ∈ freeArgs P req.outputs, (req.inputs.map (·.obj)).contains a = true :=
+      fun h => hall (List.all_eq_true.mpr h)
+    obtain ⟨a, ha⟩ := Classical.not_forall.mp h1
+    obtain ⟨hmem, hnl⟩ := Classical.not_imp.mp ha
+    exact missing_input_keyerror_noclash P π hπ true req s hwf hnc a
+      (List.contains_iff_mem.mpr hmem) (fun h => hnl (List.contains_iff_mem.mpr h))
+
+/-- The same for the statement list extracted from `_public.py` on this run, with the executable
+    hypothesis the driver evaluates. -/
+theorem build_statements_refine_spec (P : List Obj) (π : List Nat → List Nat) (hπ : ∀ l, (π l).Perm l)
+    (req : Request) (s : Store) (hwf : wfReq P req = true) (hnc : NoClash req s) :
+    (FrontIR.run buildIR ir P π req s).2 = specBuild P req := by
+  rw [build_statements_refine]
+  exact build_refines_spec P π hπ req s (wfReq_sound P req hwf) hnc
+
+/-- Converse of `missing_input_keyerror`: on a well-formed request KeyError is raised **only** when
+    some output really depends on an unlisted argument, and a model is returned **iff** every argument
+    an output depends on is listed (no other outcome exists). -/
+theorem keyerror_iff_missing (P : List Obj) (π : List Nat → List Nat) (hπ : ∀ l, (π l).Perm l)
+    (req : Request) (s : Store) (hwf : WellFormed P req) (hnc : NoClash req s) :
+    ((build ir P π true req s).2 = .error .key ↔
+      ∃ a, dependsOn P req.outputs a = true ∧ a ∉ req.inputs.map (·.obj)) ∧
+    ((∃ m, (build ir P π true req s).2 = .ok m) ↔
+      ∀ a, dependsOn P req.outputs a = true → a ∈ req.inputs.map (·.obj)) := by
+  constructor
+  · constructor
+    · intro h
+      apply Classical.byContradiction
+      intro hne
+      have hall : ∀ a, dependsOn P req.outputs a = true → a ∈ req.inputs.map (·.obj) := by
+        intro a ha
+        apply Classical.byContradiction
+        intro hn
+        exact hne ⟨a, ha, hn⟩
+      obtain ⟨m, hm⟩ := valid_request_builds_noclash P π hπ true req s hwf hnc hall
+      rw [hm] at h
+      cases h
+    · intro ⟨a, ha, hn⟩
+      exact missing_input_keyerror_noclash P π hπ true req s hwf hnc a ha hn
+  · constructor
+    · intro ⟨m, hm⟩ a ha
+      apply Classical.byContradiction
+      intro hn
+      rw [missing_input_keyerror_noclash P π hπ true req s hwf hnc a ha hn] at hm
+      cases hm
+    · exact valid_request_builds_noclash P π hπ true req s hwf hnc
+
+/-- Non-vacuity: the witness request is well-formed (executably), the spec lists the inputs in the
+    given order although `π` reverses the set, and the statements return it; with `b` unlisted the
+    spec — and the statements — say KeyError. -/
+def okOf (r : Except Err Model) : Option Model :=
+  match r with | .ok m => some m | .error _ => none
+example : wfReq exP ⟨exIns, exOuts, true⟩ = true ∧
+    okOf (specBuild exP ⟨exIns, exOuts, true⟩) = some ⟨[⟨"a", "7:[]"⟩, ⟨"b", "1:[]"⟩], [⟨"y", "1:[]"⟩], [2]⟩ ∧
+    okOf (FrontIR.run buildIR ir exP List.reverse ⟨exIns, exOuts, true⟩ (fun _ => none)).2
+      = okOf (specBuild exP ⟨exIns, exOuts, true⟩) := by decide
+example : wfReq exP ⟨[⟨"a", 0⟩], exOuts, true⟩ = true ∧
+    errOf (specBuild exP ⟨[⟨"a", 0⟩], exOuts, true⟩) = some .key ∧
+    errOf (FrontIR.run buildIR ir exP id ⟨[⟨"a", 0⟩], exOuts, true⟩ (fun _ => none)).2 = some .key := by decide
+/-- … and an unused listed argument is dropped by the spec only when the flag says so. -/
+example : okOf (specBuild exP ⟨exIns, [⟨"y", 1⟩], true⟩) = some ⟨[⟨"b", "1:[]"⟩], [⟨"y", "1:[]"⟩], [1]⟩ ∧
+    okOf (specBuild exP ⟨exIns, [⟨"y", 1⟩], false⟩) = some ⟨[⟨"a", "7:[]"⟩, ⟨"b", "1:[]"⟩], [⟨"y", "1:[]"⟩], [1]⟩ := by decide
 
 /-- Size boundary (tie G): the only functions on the build path that call themselves are the three
     whose recursion follows *nesting* (`Builder.discover` over subgraphs, `_strip_dim_symbol` over
